@@ -40,7 +40,7 @@ func runC03(c *Ctx) {
 				continue
 			}
 			n := calleeName(call)
-			if n == getCertsName || strings.HasSuffix(n, "x509TrustStore).GetCertificates") {
+			if n == getCertsName || (strings.HasSuffix(n, ").GetCertificates") && strings.HasPrefix(n, "(*ngo/verifier/truststore.")) {
 				sites = append(sites, site{fn, call})
 			}
 			c.Evals++
